@@ -2,9 +2,15 @@
 C15 — right-to-left mode is the mirror image of left-to-right.
 
 `Spec.m` is direction-parametric; the theorems of C01 are stated for both directions.  This file
-restates the direction-specific facts the property lists.
+restates the direction-specific facts the property lists, and proves the mirror theorem: matching
+right-to-left on a text is matching the mirrored pattern (`Spec.mirrorPat`: concatenations swapped,
+`^`↔`$`, `\A`↔`\z`, lookahead↔lookbehind, `\Z` ↦ its mirror image `begz`) left-to-right on the
+reversed text (`Spec.revEnv`), with positions and captures reflected (`Spec.mirrorSt`:
+`p ↦ n - p`, `(s, len) ↦ (n - (s + len), len)`).  Definitions and the induction are in
+`Lemmas/SpecMirror.lean`.
 -/
 import RegexVerif.Props.C01
+import RegexVerif.Lemmas.SpecMirror
 
 namespace RegexVerif.Props.C15
 open RegexVerif RegexVerif.Spec
@@ -76,5 +82,89 @@ theorem cap_span (e : Env) (g : Nat) (body : Pat) (rtl : Bool) (st st' : St) (h 
 example : find { text := [120, 97, 98], textstart := 3, named := [], word := [], fold := [] }
     (.seq (.chr (.one 97 false)) (.cap 1 (.chr (.one 98 false)))) true 3
     = some { pos := 1, caps := [(1, 2, 1), (0, 1, 2)] } := by decide
+
+/-! ## the mirror theorem -/
+
+/-- the text "xabc" searched right-to-left from its end -/
+private def exEnv : Env := { text := [120, 97, 98, 99], textstart := 4, named := [], word := [], fold := [] }
+/-- `a(b)(?=c)` -/
+private def exPat : Pat :=
+  .seq (.chr (.one 97 false)) (.seq (.cap 1 (.chr (.one 98 false))) (.look false false (.chr (.one 99 false))))
+
+/-- **The mirror theorem, both directions**: all matches of `p` in direction `rtl` from a state
+    inside the text, in priority order, are the reflected matches of the mirrored pattern in the
+    opposite direction on the reversed text from the reflected state.  Hypotheses: the start offset
+    and the state lie inside the text (reflection `p ↦ n - p` is only invertible there; the
+    interpreter never leaves the text, `Spec.m_wf`). -/
+theorem mirror (e : Env) (hts : e.textstart ≤ e.n) (p : Pat) (rtl : Bool) (st : St) (h : St.wf e.n st) :
+    m e p rtl st = (m (revEnv e) (mirrorPat p) (!rtl) (mirrorSt e.n st)).map (mirrorSt e.n) :=
+  m_mirror e hts p rtl st h
+
+/-- **Right-to-left matching is the mirror image of left-to-right matching**: the ordered list of
+    successes of `p` read right-to-left equals the reflected list of successes of the mirrored
+    pattern read left-to-right on the reversed text. -/
+theorem rtl_mirror (e : Env) (hts : e.textstart ≤ e.n) (p : Pat) (st : St) (h : St.wf e.n st) :
+    m e p true st = (m (revEnv e) (mirrorPat p) false (mirrorSt e.n st)).map (mirrorSt e.n) :=
+  m_mirror e hts p true st h
+
+/-- non-vacuity: `a(b)(?=c)` read leftwards from position 3 of "xabc" is `(?<=c)(b)a` read
+    rightwards from position 1 of "cbax" -/
+example : mirrorPat exPat
+    = .seq (.seq (.look true false (.chr (.one 99 false))) (.cap 1 (.chr (.one 98 false)))) (.chr (.one 97 false)) ∧
+    m exEnv exPat true { pos := 3, caps := [] } = [{ pos := 1, caps := [(1, 2, 1)] }] ∧
+    m (revEnv exEnv) (mirrorPat exPat) false { pos := 1, caps := [] } = [{ pos := 3, caps := [(1, 1, 1)] }] :=
+  ⟨rfl, by decide, by decide⟩
+
+/-- **A right-to-left find call is the mirror image of a left-to-right find call**: searching `p`
+    right-to-left downwards from `start` returns the reflection of what searching the mirrored
+    pattern left-to-right upwards from `n - start` in the reversed text returns (same attempt
+    order, same winner, reflected group 0 and captures). -/
+theorem find_rtl_mirror (e : Env) (hts : e.textstart ≤ e.n) (p : Pat) (start : Nat) (hs : start ≤ e.n) :
+    find e p true start = (find (revEnv e) (mirrorPat p) false (e.n - start)).map (mirrorSt e.n) :=
+  find_mirror e hts p true start hs
+
+/-- … and conversely a left-to-right find call is the mirror image of a right-to-left one. -/
+theorem find_ltr_mirror (e : Env) (hts : e.textstart ≤ e.n) (p : Pat) (start : Nat) (hs : start ≤ e.n) :
+    find e p false start = (find (revEnv e) (mirrorPat p) true (e.n - start)).map (mirrorSt e.n) :=
+  find_mirror e hts p false start hs
+
+/-- non-vacuity: `a(b)(?=c)` on "xabc" right-to-left from 4 finds [1,3) with group 1 = [2,3);
+    `(?<=c)(b)a` on "cbax" left-to-right from 0 finds [1,3) with group 1 = [1,2) -/
+example : find exEnv exPat true 4 = some { pos := 1, caps := [(1, 2, 1), (0, 1, 2)] } ∧
+    find (revEnv exEnv) (mirrorPat exPat) false (exEnv.n - 4) = some { pos := 3, caps := [(1, 1, 1), (0, 1, 2)] } ∧
+    mirrorSt exEnv.n { pos := 3, caps := [(1, 1, 1), (0, 1, 2)] } = { pos := 1, caps := [(1, 2, 1), (0, 1, 2)] } := by
+  decide
+
+/-- non-vacuity for the asymmetric anchor: `b\Z` right-to-left on "ab\n" (matches before the final
+    newline) is `begz b` left-to-right on "\nba" (matches after the initial newline) -/
+example : let e : Env := { text := [97, 98, 10], textstart := 3, named := [], word := [], fold := [] }
+    let p : Pat := .seq (.chr (.one 98 false)) (.anchor .endz)
+    mirrorPat p = .seq (.anchor .begz) (.chr (.one 98 false)) ∧
+    find e p true 3 = some { pos := 1, caps := [(0, 1, 1)] } ∧
+    find (revEnv e) (mirrorPat p) false 0 = some { pos := 2, caps := [(0, 1, 1)] } :=
+  ⟨rfl, by decide, by decide⟩
+
+/-- **Reflection is an involution** on states inside the text (so the mirror theorem can be read in
+    either direction), and it keeps states inside the text. -/
+theorem mirrorSt_involutive (n : Nat) (st : St) (h : St.wf n st) :
+    mirrorSt n (mirrorSt n st) = st ∧ St.wf n (mirrorSt n st) :=
+  ⟨mirrorSt_mirrorSt n st h, mirrorSt_wf n st h⟩
+
+example : mirrorSt 4 (mirrorSt 4 { pos := 1, caps := [(1, 2, 1), (0, 1, 2)] }) = { pos := 1, caps := [(1, 2, 1), (0, 1, 2)] } := by
+  decide
+
+/-- **Reversing the input twice gives the input back** (start offset inside the text). -/
+theorem revEnv_involutive (e : Env) (h : e.textstart ≤ e.n) : revEnv (revEnv e) = e :=
+  revEnv_revEnv e h
+
+example : (revEnv (revEnv exEnv)).text = exEnv.text ∧ (revEnv (revEnv exEnv)).textstart = exEnv.textstart := by decide
+
+/-- **Mirroring a pattern twice gives the pattern back.** -/
+theorem mirrorPat_involutive (p : Pat) : mirrorPat (mirrorPat p) = p :=
+  mirrorPat_mirrorPat p
+
+/-- the mirror of `a(b)(?=c)` is a different pattern, `(?<=c)(b)a` -/
+example : mirrorPat exPat ≠ exPat ∧ mirrorPat (mirrorPat exPat) = exPat :=
+  ⟨by simp [mirrorPat, exPat], rfl⟩
 
 end RegexVerif.Props.C15
